@@ -367,15 +367,29 @@ func fix(args []string, params *fixCommandParams) error {
 			return fmt.Errorf("failed to get changed files: %w", err)
 		}
 
-		changedFiles := rutil.NewSet(cf...)
+		// git reports changed files relative to the root of the repository,
+		// while the file provider holds absolute paths
+		absGitRepo, err := filepath.Abs(gitRepo)
+		if err != nil {
+			return fmt.Errorf("failed to get absolute path for %s: %w", gitRepo, err)
+		}
+
+		changedFiles := rutil.NewSet[string]()
+		for _, file := range cf {
+			changedFiles.Add(filepath.Join(absGitRepo, filepath.FromSlash(file)))
+		}
 
 		var conflictingFiles []string
 
-		for _, file := range fileProvider.ModifiedFiles() {
-			if changedFiles.Contains(file) {
+		// files that are moved are deleted from their old location, and
+		// must be possible to restore too
+		for _, file := range append(fileProvider.ModifiedFiles(), fileProvider.DeletedFiles()...) {
+			if changedFiles.Contains(file) && !slices.Contains(conflictingFiles, file) {
 				conflictingFiles = append(conflictingFiles, file)
 			}
 		}
+
+		slices.Sort(conflictingFiles)
 
 		if len(conflictingFiles) > 0 {
 			return fmt.Errorf(
